@@ -2,7 +2,7 @@
 EXTENDS RunLoop, Json
 Terminal == exit # "running" \/ i = Len(outs)
 Emit == (Terminal /\ (cmd = "server" \/ exit # "running")) =>
-          PrintT(<<"REPLAY", ToJson([kind |-> "loop", cmd |-> cmd, outs |-> outs, runs |-> i, exit |-> exit])>>)
+          PrintT(<<"REPLAY", ToJson([kind |-> "loop", cmd |-> cmd, outs |-> outs, runs |-> i, exit |-> exit, san_fails |-> sanFails])>>)
 EmitTable == (i = 0 /\ cmd = "vrps" /\ outs = <<"ok">>) =>
   \A refresh \in Times, minRefresh \in Times \cup {0}, expiry \in Times \cup {0, Past} :
      /\ PrintT(<<"REPLAY", ToJson([kind |-> "wait", refresh |-> refresh, min |-> minRefresh, expiry |-> expiry, prev |-> -1,
